@@ -209,10 +209,26 @@ func (g *genCtx) list(f *FieldInfo) []*Entry {
 	cnt := rapid.IntRange(lo, hi).Draw(g.t, f.Name+"#")
 	seen := map[string]bool{}
 	var out []*Entry
+	// now and then a cluster of number-like string keys ("9", "10", "1a", ...): orderings that treat numbers
+	// and text differently disagree on them
+	numberish := false
+	if len(f.KeyFields) == 1 && !g.o.PlainStrings {
+		if lt := f.KeyFields[0].Type; lt != nil && lt.VKind() == KStr && len(lt.Patterns) == 0 && len(lt.Length) == 0 && len(lt.Members) == 0 && lt.Leafref == "" {
+			if rapid.IntRange(0, 5).Draw(g.t, f.Name+".numberish") == 0 {
+				numberish = true
+				if f.Max == 0 || f.Max >= 4 {
+					cnt = rapid.IntRange(3, 5).Draw(g.t, f.Name+"#n")
+				}
+			}
+		}
+	}
 	for tries := 0; len(out) < cnt && tries < cnt*8; tries++ {
 		key := make([]Val, len(f.KeyFields))
 		for i, kf := range f.KeyFields {
 			key[i] = g.fvalue(kf, f.Name+"."+kf.Name)
+		}
+		if numberish {
+			key[0] = Val{K: KStr, S: rapid.SampledFrom([]string{"9", "10", "1a", "2", "11", "1", "a1", "01", "100", "9a"}).Draw(g.t, f.Name+".nk")}
 		}
 		kc := KeyLoose(key)
 		if seen[kc] {
